@@ -187,6 +187,9 @@ Proof. reflexivity. Qed.
 Lemma effective_migrate_diff e : effective (mkInv CMigrateDiff [] e) = EOk [].
 Proof. reflexivity. Qed.
 
+Lemma effective_no_flag c e : has_exclude_flag c = false -> effective (mkInv c [] e) = EOk [].
+Proof. intros H. unfold effective. simpl. rewrite H. reflexivity. Qed.
+
 (** both states of a command are filtered by one and the same list: the effective one *)
 Lemma states_same_list i rawF rawT f t : states_of i rawF rawT = EOk (f, t) ->
   exists pats, effective i = EOk pats /\
